@@ -31,6 +31,7 @@ def run(ctx: Ctx) -> list[Ob]:
     obs += r14u_mod.merged_node_lists_unique(ctx)
     obs += r1.r1e(ctx)
     obs += r12b.param_rewrites(ctx)
+    obs += r5h_mod.r5i(ctx)
     return obs
 
 
@@ -58,8 +59,9 @@ SPEC = PropSpec(
         ' R14u: the constructors that merge the node lists of several operand graphs (Parameter.from_nary / TorchParameter.from_nary) de-duplicate the concatenation in order: operands sharing a sub-graph (log(q) + q) or the same operand twice (q * q) would otherwise list the shared nodes twice and the composite graph could not be ordered, compiled or evaluated.'
         ' R1e: a torch parameter node is not pickier than the symbolic node it is compiled from -- the atomic comparisons its constructor asserts on hyper-parameters both constructors take under the same name are among those the symbolic constructor asserts (a torch-side `0 <= vmin` would make a symbolically valid scaled sigmoid onto [-1, 1] fail at compile time).'
         ' R12b (parameter rewrites): every optimisation rewrite of a parameter sub-graph (log of softmax, ReduceSum of an outer product as einsum + flatten, ..) is interpreted on abstract operands and has to return the shape and the element layout of the graph it replaces -- composite graphs evaluate to the composition of their nodes under optimize=True as well.'
+        ' R5i: a normalised axis (`a + len(shape) if a < 0 else a`) is range-checked at both ends (`0 <= a < len(..)`): an upper bound alone admits axes below -rank, which stay negative and index from the end, so the operation runs along another axis than the declared one.'
     ),
     not_decided="the mathematical content of each operator (numerical).",
     run=run,
-    floors={"R1e": 6, "R14u": 2, "R5h": 8, "R3g": 2, "R3l": 2, "R3m": 8, "R3j": 40, "R12c": 8, "R3i": 4, "R5d": 2, "R4g": 3, "R5c": 2, "R4l": 60, "R4p": 80, "R1a": 28, "R1b": 28, "R1c": 100, "R3a": 60, "R3f": 60, "R5a": 9, "R5b": 12, "R4a": 100},
+    floors={"R5i": 8, "R1e": 6, "R14u": 2, "R5h": 8, "R3g": 2, "R3l": 2, "R3m": 8, "R3j": 40, "R12c": 8, "R3i": 4, "R5d": 2, "R4g": 3, "R5c": 2, "R4l": 60, "R4p": 80, "R1a": 28, "R1b": 28, "R1c": 100, "R3a": 60, "R3f": 60, "R5a": 9, "R5b": 12, "R4a": 100},
 )
